@@ -10,19 +10,19 @@ CHECKS = {
  "C11": dict(level="exploration", engine="rapidcheck + valgrind", technique="rapidcheck-generated public shapes x random secrets with memcheck definedness used as a dynamic taint oracle on the shipped -O3 object code (assembly included); VALGRIND_COUNT_ERRORS brackets each case so reports shrink",
              text="32 keyed primitives; every key/message/password/system-source/masking-word byte is marked undefined, public values stay defined, outputs and the accept/reject result are declassified after the call; memcheck then reports exactly the conditional jumps and address computations that depend on secrets. Exploration: the oracle is binary-level and exact for executed paths; the generator covers every length branch (0..5 blocks, rate-1/rate/rate+1).",
              note="Dynamic (executed paths only); no view of instruction timing or micro-architecture; trusts memcheck's definedness propagation; C++ wrappers that branch on the (public) accept/reject result are not tainted.", ref="4/C11"),
- "C16": dict(level="exploration", technique="rapidcheck-generated multi-threaded workloads (2..16 threads, barrier start, generated yields, per-thread objects + shared const objects) under gcc ThreadSanitizer builds of library and harness; per-thread results compared with the sequential run",
-             text="A happens-before race detector reports a conflicting pair even when the two accesses did not overlap in time, so hidden mutable global/static state shows up on the first round that touches it from two threads; results are additionally compared with the sequential run of the same operations.",
+ "C16": dict(level="exploration", technique="rapidcheck-generated multi-threaded workloads (2..16 threads, barrier start, generated yields, per-thread objects + shared const objects) under gcc ThreadSanitizer builds of library and harness; per-thread results compared with the sequential run; a second generated property forks a fresh process per case in which the threads' first library calls are the same generated calls (one-time initialisation races); exhaustive scan of the release archives for writable non-thread-local data objects",
+             text="A happens-before race detector reports a conflicting pair even when the two accesses did not overlap in time, so hidden mutable global/static state shows up on the first round that touches it from two threads; results are additionally compared with the sequential run of the same operations. Because a sequential reference run in the same process would complete any lazy initialisation first, the first-use property runs each case in a freshly forked child. The statement "keeps no hidden mutable global state" is also decided directly by enumerating the writable data symbols of the built archives (none on the unchanged tree).",
              note="The harness does not own the scheduler: the claim is race-freedom of generated workloads under a happens-before detector, not an enumeration of interleavings; the x86-64 assembly is uninstrumented (it only touches its arguments).", ref="4/C16"),
  "C13": dict(level="exploration", technique="rapidcheck PBT with a secret-swap metamorphic oracle: the same public history run twice in the same storage with independent secrets must leave identical raw object bytes after free / clear() / destructor; release -O3 library",
              text="39 object types x generated histories (chunking, finalize/squeeze/encrypt/randomize/reseed steps) x end action; every byte of sizeof(T) is compared between two runs that differ only in keys, messages, system-source bytes and masking words. Stronger than 'all zero' and does not false-alarm on objects that are re-keyed with zeros.",
              note="Judges the object's bytes only (not registers or dead stack); the wipe is executed by the shipped -O3 object code.", ref="4/C13"),
- "C19": dict(level="fault_enumeration", engine="hypothesis", technique="Hypothesis-generated files/passwords driving the real release binaries as subprocesses; exhaustive per-byte bit flips and per-length truncations for small files; LD_PRELOAD fault-injection shim failing the k-th read/write/getrandom for every k of a clean run; asconsum differential against the reference digest",
+ "C19": dict(level="fault_enumeration", engine="hypothesis", technique="Hypothesis-generated files/passwords driving the real release binaries as subprocesses; exhaustive per-byte bit flips and per-length truncations for small files; LD_PRELOAD fault-injection shim failing the k-th read/write/getrandom for every k of a clean run; asconsum differential against the reference digest; multi-file command lines and the stdin/stdout form",
              text="Round trip, wrong passwords, a bit flip at every byte and truncation at every length (equivalently the writer crashing after any prefix) for encrypted files up to 696 bytes and sampled positions incl. all header/tag bytes above, plus every single read/write/getrandom failure of encryption and decryption, must give a non-zero exit and no output file; short transfers and EINTR must be survived. asconsum output and check mode are compared with the reference model.",
              note="The shim fails only calls on the tool's own descriptors (>= 3); file names are ordinary (names are covered by C12); one genuine defect found and fixed (known_findings.json).", ref="4/C19"),
  "C12": dict(level="exploration", engine="rapidcheck + libFuzzer + hypothesis", technique="all generated case streams re-run under gcc ASan+UBSan (incl. MAX_SHARES 3 and 2 builds) and, for the assembly, in the release build with PROT_NONE guard pages around every buffer/state/masked word; fork per case so memory errors shrink; libFuzzer structure-aware target; Hypothesis argv/file generation for the tools",
              text="Memory safety is judged by run-time monitors (ASan/UBSan reports, guard-page faults, signals) over generated valid calls with exact-size buffers, unaligned ends and NULL for empty optional inputs, in several build configurations. Exploration is the right level: the monitors are sound for the executed paths, the generators supply the paths.",
              note="ASan cannot see inside the assembly files (covered by guard pages); UBSan nonnull-attribute disabled (NULL+0 is allowed by the property); semantic mismatches are ignored here (other properties).", ref="4/C12"),
- "C15": dict(level="fault_enumeration", technique="rapidcheck model-based PBT over generated PRNG command sequences with a link-time substituted system source (generated bytes + per-call failure) and failing/short storage callbacks; determinism, bit-flip influence, inverse-permutation forward-security invariant, reseed-before-output monitor, status oracle",
+ "C15": dict(level="fault_enumeration", technique="rapidcheck model-based PBT over generated PRNG command sequences with a link-time substituted system source (generated bytes + per-call failure) and failing/short storage callbacks; determinism, bit-flip influence, inverse-permutation forward-security invariant, reseed-before-output monitor, status oracle; second part on the REAL system source: Hypothesis-generated operation scripts with a generated set of getrandom() invocations failed or interrupted by an LD_PRELOAD shim, statuses and draw counts predicted by a model",
              text="Generated histories of init/fetch/feed/reseed/save/load/ascon_random/free+init run three times (same tape, same tape, one flipped entropy or fed bit); after every command the canonical state is run backwards through the reference inverse permutation and must show an all-zero rate; a fetch that starts at >= 16384 produced bytes must call the system source before writing output; every status is compared with the header text under generated source and storage faults.",
              note="Only the stated invariants are asserted, not the SpongePRNG schedule; the six documented-vs-actual status combinations of save_seed/load_seed are recorded as open known findings, excluded by construction and counted.", ref="4/C15"),
  "C09": dict(level="exploration", engine="rapidcheck + driver", technique="differential testing across builds: one generated workload (pure function of the seed) run in 17 (quick) / 85 (thorough) library configurations built by the repository's own CMake, transcripts of per-call digests compared",
